@@ -334,7 +334,7 @@ func reifyStruct(opts *options, orig reflect.Value, cfg *Config) Error {
 
 			if fInfo.tagOptions.squash {
 				vField := chaseValue(fInfo.value)
-				if base := chaseTypePointers(vField.Type()); vField.Kind() == reflect.Ptr && base.Kind() == reflect.Struct && !tConfig.ConvertibleTo(base) {
+				if base := chaseTypePointers(vField.Type()); vField.Kind() == reflect.Ptr && vField.CanSet() && base.Kind() == reflect.Struct && !tConfig.ConvertibleTo(base) {
 					// a nil pointer to an inlined struct is treated like any other
 					// nil pointer field: allocated only if the configuration has a
 					// setting for it, that is for one of the fields of the struct
@@ -353,7 +353,8 @@ func reifyStruct(opts *options, orig reflect.Value, cfg *Config) Error {
 					continue
 				}
 				kind := vField.Kind()
-				if kind == reflect.Ptr {
+				if kind == reflect.Ptr && vField.CanSet() {
+					// (a nil pointer held by an interface can not be filled in place)
 					// a nil pointer: what matters is what it points to, which
 					// reifyInto allocates (Merge inlines through pointers too)
 					kind = chaseTypePointers(vField.Type()).Kind()
